@@ -168,6 +168,12 @@ def run(ctx):
             if mism:
                 m0 = min(mism, key=lambda m: len(m[1]))
                 ctx.ties_broken.append(f"correspondence:encoder model differs from implementation on {len(mism)} inputs, shortest: {str(m0)[:700]}")
+    # what the real client writes: every packet must be accepted by the independent decoder (C17 monitor) and every PUBLISH must say what its
+    # async_publish call said (composed content model, Props/C17 `composed_request_says_what_was_asked`)
+    import client_check as CC
+    fails = CC.run_scenarios(ctx, "C17", 120 if ctx.tier == "quick" else 3000, steps=60)
+    found = CC.report(ctx, "C17", fails) or found
+    ctx.cov["rule"] += "; plus generated scenarios through the real mqtt_client (H-client): every packet written is decoded by the independent decoder, every PUBLISH is compared with the arguments of its async_publish call through the content model"
     report_broken_ties(ctx, found)
     if ctx.tier == "thorough" and not ctx.ties_broken:
         for m, msg in leanchecker(ctx.lean.get("modules", [])):
